@@ -301,14 +301,22 @@ def run_item(item):
                 if k <= 1 and n in (3, 7):
                     for cls, cname, kw in ((S.AdaptiveThresholdRejectionSampler, "AdaptiveThreshold", {"resample_ratio": 0.5}),
                                            (S.AdaptiveRandomRejectionSampler, "AdaptiveRandom", {})):
-                        def hist(cls=cls, kw=kw, n=n, prm=prm):
+                        # the parameter row changes between the calls (all admissible single rows in turn)
+                        seq = [prm]
+                        if fv and k == 1:
+                            others = [th for th in ok_thetas if [th[v] for v in fv] != [batch[v][0] for v in fv]]
+                            seq += [Bd.params_points({v: [th[v]] for v in fv}) for th in others[:2]]
+                        while len(seq) < 3:
+                            seq.append(seq[-1])
+
+                        def hist(cls=cls, kw=kw, n=n, seq=seq):
                             smp = cls(Bd.build_tp(a), n_points=n, **kw)
                             outs = []
-                            p = smp.sample_points(None, prm)
+                            p = smp.sample_points(None, seq[0])
                             outs.append(Points(p.as_tensor.clone(), p.space))
                             m = len(p)
-                            for loss in (torch.arange(m, dtype=torch.float32), torch.arange(m, 0, -1, dtype=torch.float32)):
-                                p = smp.sample_points(loss.reshape(-1), prm)
+                            for loss, q in zip((torch.arange(m, dtype=torch.float32), torch.arange(m, 0, -1, dtype=torch.float32)), seq[1:]):
+                                p = smp.sample_points(loss.reshape(-1), q)
                                 outs.append(Points(p.as_tensor.clone(), p.space))
                             return outs
                         execute(cname, "n=%d k=%d %s history=3 calls" % (n, k, batch), hist, prm, True, deviate=(n == 3))
